@@ -288,6 +288,12 @@ def directed_scripts(variant):
         "cfg grace=0 soft=4 hard=8 tcap=2", "sink 0 lvl=0", "logger 0 sinks=0 lvl=0", "start", "T 1 start",
         "IB 1 0 3 7", "LB 1 0 10", "LB 1 0 10", "LB 1 0 10", "LB 1 0 10", "L 1 0 7 10", "LB 1 0 10", "LB 1 0 10", "FB 1 0",
         "L 1 0 4 10", "LB 1 0 10"] + ["P"] * 16 + ["Q"]))
+    # F26: a sink throws in the middle of a backtrace replay (2nd write of sink 0 = the 2nd stored statement), then a second
+    # flush_backtrace(): nothing that the first replay wrote may be written again; only the faulting statement may be missing
+    out.append(("dir_bt_replay_fault", [
+        "cfg grace=0 soft=4 hard=8 tcap=2", "sink 0 lvl=0 wthrow=2", "sink 1 lvl=0", "logger 0 sinks=0,1 lvl=0", "start", "T 1 start",
+        "IB 1 0 4 10", "LB 1 0 10", "LB 1 0 10", "LB 1 0 10", "FB 1 0"] + ["P"] * 8 + ["FB 1 0"] + ["P"] * 4 + [
+        "LB 1 0 10", "L 1 0 8 10"] + ["P"] * 4 + ["Q"]))
     # shutdown with a backlog: thread 1 has more than `hard` statements queued, thread 2 a younger one (C05/C07)
     out.append(("dir_exit_backlog", [
         "cfg grace=1 soft=2 hard=2 tcap=2", "sink 0 lvl=0", "logger 0 sinks=0 lvl=0", "start",
@@ -646,6 +652,11 @@ def oracles(lines):
         st = stmts.get(i)
         if c > 1 and not backtrace_used:
             viol.append(("C03", "statement id=%d written %d times to sink %d" % (i, c, s)))
+        if c > 1 and st and st["lvl"] == 9:
+            # a LOG_BACKTRACE statement is replayed by at most one flush, once per sink (C18) — also when a sink throws
+            # during a replay (C10: "at most that one statement is missing …, every other statement exactly once"; F26)
+            viol.append(("C10" if has_faults else "C03", "backtrace statement id=%d replayed %d times to sink %d (a stored statement is "
+                         "written by one flush only; a throwing sink may cost the faulting statement, not duplicate the others)" % (i, c, s)))
         if st and st["ret"] is False:
             viol.append(("C08", "statement id=%d was reported dropped (ret=0) but reached sink %d" % (i, s)))
         if st and st.get("skipped"):
